@@ -156,6 +156,17 @@ def codec_facts(str_array_padded):
     # arrays: exactly the element's flag
     need(trivial_body(src, "AbiEncode", "is_encode_trivial", r"\[T; N\]", "[T; N]") == "is_encode_trivial::<T>()", "array is_encode_trivial = element's")
     need(trivial_body(src, "AbiDecode", "is_decode_trivial", r"\[T; N\]", "[T; N]") == "is_decode_trivial::<T>()", "array is_decode_trivial = element's")
+    # arrays: element-wise loops (the reader advances by what each element consumes)
+    def fn_body(trait, fn_re, what):
+        ms = list(re.finditer(r"impl<T, const N: u64>\s+%s\s+for\s+\[T; N\]\s*(?:where[^{]*)?\{" % trait, src))
+        need(len(ms) == 1, "exactly one `impl %s for [T; N]`" % trait)
+        body = block_after(src, re.escape(src[ms[0].start():ms[0].end()]), "impl %s for [T; N]" % trait)
+        return norm(block_after(body, fn_re, what))
+    need(fn_body("AbiEncode", r"fn abi_encode\(self, buffer: Buffer\) -> Buffer \{", "array abi_encode")
+         == "letmutbuffer=buffer;letmuti=0;whilei<N{buffer=self[i].abi_encode(buffer);i+=1;};buffer", "array abi_encode is the element loop")
+    need(fn_body("AbiDecode", r"fn abi_decode\(ref mut buffer: BufferReader\) -> \[T; N\] \{", "array abi_decode")
+         == "constLENGTH:u64=__size_of::<T>()*N;letmutarray=[0u8;LENGTH];letarray:&mut[T;N]=__transmute::<&mut[u8;LENGTH],&mut[T;N]>(&mutarray);"
+            "letmuti=0;whilei<N{letitem:&mutT=__elem_at(array,i);*item=buffer.decode::<T>();i+=1;}*array", "array abi_decode is the element loop")
     # tuples: ids equal && every component
     for trait, fn, ef in (("AbiEncode", "is_encode_trivial", "is_encode_trivial"), ("AbiDecode", "is_decode_trivial", "is_decode_trivial")):
         letters = "ABCDEFGHIJKLMNOPQRSTUVWXYZ"
